@@ -1,3 +1,326 @@
 import Driver.Common
-/- stub: model driver for C15 not built yet -/
-def main : IO Unit := Driver.lineLoop (fun _ => "unimplemented")
+import ThriftVerif.Lib.Reflect
+import ThriftVerif.Generated.C15Schema
+/- model driver for C15: `describe`, the schema-driven codec at the regenerated descriptor schema,
+   `RegisterAST` and the lookup API (harness/cmd/c15 writes the op lines). -/
+namespace Driver.C15
+open Gen Reflect
+
+abbrev P (α : Type) := List String → Option (α × List String)
+
+def pStr : P Str
+  | t :: r => (VL.hexDecode t).map (·, r)
+  | [] => none
+
+def pNat : P Nat
+  | t :: r => t.toNat?.map (·, r)
+  | [] => none
+
+def pInt : P Int
+  | t :: r => t.toInt?.map (·, r)
+  | [] => none
+
+def hexNat (s : String) : Option Nat :=
+  s.toList.foldlM (fun acc c => (VL.hexVal c).map (acc * 16 + ·)) 0
+
+partial def pMany {α : Type} (p : P α) : Nat → P (List α)
+  | 0, r => some ([], r)
+  | n+1, r => do let (x, r) ← p r; let (xs, r) ← pMany p n r; some (x :: xs, r)
+
+def pList {α : Type} (p : P α) : P (List α) := fun r => do
+  let (n, r) ← pNat r
+  pMany p n r
+
+def pAnno : P Anno := fun r => do
+  let (k, r) ← pStr r
+  let (vs, r) ← pList pStr r
+  some ({ key := k, values := vs }, r)
+
+mutual
+partial def pTy : P TyE
+  | "T" :: r => do
+      let (n, r) ← pStr r
+      let (k, r) ← pTyO r
+      let (v, r) ← pTyO r
+      some (.mk n k v, r)
+  | _ => none
+partial def pTyO : P TyO
+  | "-" :: r => some (.none, r)
+  | r => do let (t, r) ← pTy r; some (.some t, r)
+end
+
+partial def pCV : P CV
+  | "i" :: r => do let (v, r) ← pInt r; some (.int v, r)
+  | "d" :: t :: r => do let v ← hexNat t; some (.dbl v, r)
+  | "s" :: r => do let (s, r) ← pStr r; some (.lit s, r)
+  | "x" :: r => do let (s, r) ← pStr r; some (.ident s, r)
+  | "l" :: r => do let (xs, r) ← pList pCV r; some (.list xs, r)
+  | "m" :: r => do
+      let (xs, r) ← pList (fun r => do let (k, r) ← pCV r; let (v, r) ← pCV r; some ((k, v), r)) r
+      some (.map xs, r)
+  | _ => none
+
+def pReq : P Req
+  | "d" :: r => some (.dflt, r)
+  | "r" :: r => some (.required, r)
+  | "o" :: r => some (.optional, r)
+  | _ => none
+
+def pField : P Field := fun r => do
+  let (name, r) ← pStr r
+  let (id, r) ← pInt r
+  let (req, r) ← pReq r
+  let (ty, r) ← pTy r
+  let (d, r) ← (match r with
+    | "-" :: r' => some (none, r')
+    | _ => do let (c, r') ← pCV r; some (some c, r'))
+  let (as, r) ← pList pAnno r
+  let (c, r) ← pStr r
+  some ({ name := name, id := id, req := req, ty := ty, dflt := d, annos := as, comments := c }, r)
+
+def pStruct : P StructLike := fun r => do
+  let (name, r) ← pStr r
+  let (fs, r) ← pList pField r
+  let (as, r) ← pList pAnno r
+  let (c, r) ← pStr r
+  some ({ name := name, fields := fs, annos := as, comments := c }, r)
+
+def pEnumValue : P EnumValue := fun r => do
+  let (name, r) ← pStr r
+  let (v, r) ← pInt r
+  let (as, r) ← pList pAnno r
+  let (c, r) ← pStr r
+  some ({ name := name, value := v, annos := as, comments := c }, r)
+
+def pEnum : P Enum := fun r => do
+  let (name, r) ← pStr r
+  let (vs, r) ← pList pEnumValue r
+  let (as, r) ← pList pAnno r
+  let (c, r) ← pStr r
+  some ({ name := name, values := vs, annos := as, comments := c }, r)
+
+def pTypedef : P Typedef := fun r => do
+  let (alias, r) ← pStr r
+  let (ty, r) ← pTy r
+  let (as, r) ← pList pAnno r
+  let (c, r) ← pStr r
+  some ({ alias := alias, ty := ty, annos := as, comments := c }, r)
+
+def pConst : P Const := fun r => do
+  let (name, r) ← pStr r
+  let (ty, r) ← pTy r
+  let (v, r) ← pCV r
+  let (as, r) ← pList pAnno r
+  let (c, r) ← pStr r
+  some ({ name := name, ty := ty, value := v, annos := as, comments := c }, r)
+
+def pFunction : P Function := fun r => do
+  let (name, r) ← pStr r
+  let (ow, r) ← pNat r
+  let (ft, r) ← pTyO r
+  let (args, r) ← pList pField r
+  let (throws, r) ← pList pField r
+  let (as, r) ← pList pAnno r
+  let (c, r) ← pStr r
+  some ({ name := name, oneway := ow == 1, fnType := ft, args := args, throws := throws, annos := as, comments := c }, r)
+
+def pService : P Service := fun r => do
+  let (name, r) ← pStr r
+  let (base, r) ← pStr r
+  let (fs, r) ← pList pFunction r
+  let (as, r) ← pList pAnno r
+  let (c, r) ← pStr r
+  some ({ name := name, base := base, functions := fs, annos := as, comments := c }, r)
+
+def pNamespace : P Namespace := fun r => do
+  let (l, r) ← pStr r
+  let (n, r) ← pStr r
+  some ({ lang := l, name := n }, r)
+
+def pFile : P File := fun r => do
+  let (fname, r) ← pStr r
+  let (incs, r) ← pList pStr r
+  let (nss, r) ← pList pNamespace r
+  let (tds, r) ← pList pTypedef r
+  let (cs, r) ← pList pConst r
+  let (es, r) ← pList pEnum r
+  let (ss, r) ← pList pStruct r
+  let (us, r) ← pList pStruct r
+  let (xs, r) ← pList pStruct r
+  let (svs, r) ← pList pService r
+  some ({ filename := fname, includes := incs, namespaces := nss, typedefs := tds, consts := cs, enums := es,
+          structs := ss, unions := us, exceptions := xs, services := svs }, r)
+
+/-! ### dumps: the generic Value grammar (docs/BATCH.md §2), maps sorted by (key text, value text) -/
+
+def hex16 (n : Nat) : String :=
+  String.ofList ((List.range 16).reverse.map fun i => VL.hexDigit ((n / 16 ^ i) % 16))
+
+def insSorted (x : String × String) : List (String × String) → List (String × String)
+  | [] => [x]
+  | y :: r => if x.1 < y.1 || (x.1 == y.1 && x.2 ≤ y.2) then x :: y :: r else y :: insSorted x r
+
+partial def showVal (Pg : Prog) (ty : Ty) (v : GoVal) : String :=
+  match v, ty with
+  | .nil, _ => "n"
+  | .bool b, _ => if b then "b1" else "b0"
+  | .int x, _ => s!"I{x}"
+  | .dbl x, _ => "D" ++ hex16 x
+  | .bytes b, _ => "X" ++ VL.hexEncode b
+  | .list xs, .set e => s!"T {xs.length}" ++ String.join (xs.map fun x => " " ++ showVal Pg e x)
+  | .list xs, .list e => s!"L {xs.length}" ++ String.join (xs.map fun x => " " ++ showVal Pg e x)
+  | .list xs, _ => s!"L {xs.length} ?"
+  | .map kvs, .map k w =>
+      let es := kvs.map fun (a, b) => (showVal Pg k a, showVal Pg w b)
+      let es := es.foldr insSorted []
+      s!"M {kvs.length}" ++ String.join (es.map fun (a, b) => " " ++ a ++ " " ++ b)
+  | .map kvs, _ => s!"M {kvs.length} ?"
+  | .strct fs, .struct i =>
+      match Pg.struct? i with
+      | some sd => s!"R {fs.length}" ++ String.join ((fs.zip sd.fields).map fun (x, f) => " " ++ showVal Pg f.ty x)
+      | none => "R ?"
+  | .strct fs, _ => s!"R {fs.length} ?"
+
+/-- canonical bytes of a wire value: map entries sorted by (encoded key, encoded value) -/
+partial def canonW : Wire.WVal → Wire.WVal
+  | .struct fs => .struct (fs.map fun (i, v) => (i, canonW v))
+  | .list t xs => .list t (xs.map canonW)
+  | .set t xs => .set t (xs.map canonW)
+  | .map k v kvs =>
+      let es := kvs.map fun (a, b) => (canonW a, canonW b)
+      let keyed := es.map fun (a, b) => ((VL.hexEncode (Wire.encW a), VL.hexEncode (Wire.encW b)), (a, b))
+      let sorted := keyed.foldr ins []
+      .map k v (sorted.map (·.2))
+  | w => w
+where ins (x : (String × String) × (Wire.WVal × Wire.WVal)) :
+    List ((String × String) × (Wire.WVal × Wire.WVal)) → List ((String × String) × (Wire.WVal × Wire.WVal))
+  | [] => [x]
+  | y :: r => if x.1.1 < y.1.1 || (x.1.1 == y.1.1 && x.1.2 ≤ y.1.2) then x :: y :: r else y :: ins x r
+
+def prog : Prog := Generated.C15Schema.prog
+
+def dump (sidx : Nat) (v : GoVal) : String := showVal prog (.struct sidx) v
+
+def dumpOpt {α : Type} (sidx : Nat) (g : α → GoVal) : Option α → String
+  | none => "nil"
+  | some x => "ok " ++ dump sidx (g x)
+
+/-! ### state: the files of the current program, the registries -/
+
+structure St where
+  files : List (Nat × File × List Nat) := []
+  world : World := { dflt := [], regs := [] }
+  gd : Option GFD := none
+
+def uuidTok : Str := [85, 85, 73, 68]
+
+def buildAst (files : List (Nat × File × List Nat)) : Nat → Nat → Option Ast
+  | 0, _ => none
+  | fuel+1, idx =>
+    match files.find? (·.1 == idx) with
+    | none => none
+    | some (_, f, refs) =>
+      (refs.mapM (buildAst files fuel)).map fun rs => Ast.mk f rs
+
+def tdOf (path name : Str) (withUuid : Bool) : TypeDesc :=
+  .mk path name .none .none (if withUuid then some [(uuidKey, uuidTok)] else none)
+
+def findStructKind (fd : FileDesc) (kind : String) (name : Str) : Option StructDesc :=
+  if kind == "s" then lookStruct fd name else if kind == "u" then lookUnion fd name else lookException fd name
+
+def step (st : St) (line : String) : St × String :=
+  match VL.toks line with
+  | "D" :: r =>
+    match pFile r with
+    | some (f, []) => (st, "ok " ++ dump sFileDescriptor (gFile (describe f)))
+    | _ => (st, "bad-op")
+  | "M" :: r =>
+    match pFile r with
+    | some (f, []) =>
+      (st, match Std.toW prog (.struct sFileDescriptor) (gFile (describe f)) with
+        | .ok w => "ok " ++ VL.hexEncode (Wire.encW (canonW w))
+        | .err => "err"
+        | .panic => "panic")
+    | _ => (st, "bad-op")
+  | ["U", hex] =>
+    match VL.hexDecode hex with
+    | some bs => (st, match unmarshalVal prog bs with
+        | some v => "ok " ++ dump sFileDescriptor v
+        | none => "err")
+    | none => (st, "bad-op")
+  | ["P"] => ({}, "ok")
+  | "A" :: idx :: r =>
+    match idx.toNat?, pList pNat r with
+    | some i, some (refs, r') =>
+      match pFile r' with
+      | some (f, []) => ({ st with files := st.files ++ [(i, f, refs)] }, "ok")
+      | _ => (st, "bad-op")
+    | _, _ => (st, "bad-op")
+  | ["G", root] =>
+    match root.toNat? with
+    | some i =>
+      match buildAst st.files (st.files.length + 1) i with
+      | some a =>
+        let w := st.world.registerAST uuidTok a
+        let gd := mapGet w.regs uuidTok
+        ({ st with world := w, gd := gd }, s!"ok {(gd.getD []).length}")
+      | none => (st, "bad-op")
+    | none => (st, "bad-op")
+  | ["GD", path] =>
+    match VL.hexDecode path with
+    | some p => (st, dumpOpt sFileDescriptor gFile (lookupFD st.gd p))
+    | none => (st, "bad-op")
+  | ["L", kind, path, name] =>
+    match VL.hexDecode path, VL.hexDecode name with
+    | some p, some n =>
+      let w := st.world
+      (st, match kind with
+        | "s" => dumpOpt sStructDescriptor gStruct (lookupIn w st.gd p n lookStruct)
+        | "u" => dumpOpt sStructDescriptor gStruct (lookupIn w st.gd p n lookUnion)
+        | "x" => dumpOpt sStructDescriptor gStruct (lookupIn w st.gd p n lookException)
+        | "e" => dumpOpt sEnumDescriptor gEnum (lookupIn w st.gd p n lookEnum)
+        | "t" => dumpOpt sTypedefDescriptor gTypedef (lookupIn w st.gd p n lookTypedef)
+        | "c" => dumpOpt sConstDescriptor gConst (lookupIn w st.gd p n lookConst)
+        | "v" => dumpOpt sServiceDescriptor gService (lookupIn w st.gd p n lookService)
+        | _ => "bad-op")
+    | _, _ => (st, "bad-op")
+  | ["LM", path, svc, meth] =>
+    match VL.hexDecode path, VL.hexDecode svc, VL.hexDecode meth with
+    | some p, some s, some m => (st, dumpOpt sMethodDescriptor gMethod (lookupMethod st.world st.gd p s m))
+    | _, _, _ => (st, "bad-op")
+  | ["TD", how, path, name, uu] =>
+    match VL.hexDecode path, VL.hexDecode name with
+    | some p, some n =>
+      let w := st.world
+      let td := tdOf p n (uu == "1")
+      (st, match how with
+        | "s" => dumpOpt sStructDescriptor gStruct (td.getVia w lookStruct)
+        | "u" => dumpOpt sStructDescriptor gStruct (td.getVia w lookUnion)
+        | "x" => dumpOpt sStructDescriptor gStruct (td.getVia w lookException)
+        | "e" => dumpOpt sEnumDescriptor gEnum (td.getVia2 w lookEnum)
+        | "t" => dumpOpt sTypedefDescriptor gTypedef (td.getVia2 w lookTypedef)
+        | _ => "bad-op")
+    | _, _ => (st, "bad-op")
+  | ["FN", path, kind, sname, fname] =>
+    match VL.hexDecode path, VL.hexDecode sname, VL.hexDecode fname with
+    | some p, some s, some f =>
+      (st, dumpOpt sFieldDescriptor gField
+        (((lookupFD st.gd p).bind fun fd => findStructKind fd kind s).bind (·.fieldByName f)))
+    | _, _, _ => (st, "bad-op")
+  | ["FI", path, kind, sname, id] =>
+    match VL.hexDecode path, VL.hexDecode sname, id.toInt? with
+    | some p, some s, some i =>
+      (st, dumpOpt sFieldDescriptor gField
+        (((lookupFD st.gd p).bind fun fd => findStructKind fd kind s).bind (·.fieldById i)))
+    | _, _, _ => (st, "bad-op")
+  | ["SP", path, svc] =>
+    match VL.hexDecode path, VL.hexDecode svc with
+    | some p, some s =>
+      (st, dumpOpt sServiceDescriptor gService
+        (((lookupFD st.gd p).bind fun fd => lookService fd s).bind (·.parent st.world)))
+    | _, _ => (st, "bad-op")
+  | _ => (st, "bad-op")
+
+end Driver.C15
+
+def main : IO Unit := Driver.stateLoop ({} : Driver.C15.St) Driver.C15.step
